@@ -132,6 +132,16 @@ def grammar() -> Grammar:
         A("star_exclude_join", 1, "SELECT * EXCLUDE (b) FROM x CROSS JOIN y"),
         A("star_replace_using", 1, "SELECT * REPLACE (b + 1 AS b) FROM x JOIN y USING (b)"),
         A("tstar_twice", 1, "SELECT x.*, x.* FROM x"),
+        # ONE CTE referenced twice, the references exposing different column names (a column-list alias on one of them), in one scope
+        # in both orders and across a correlated subquery whose outer query has a same-named column
+        A("cte2.list_then_plain_star", 1, "WITH c AS (SELECT a, b FROM x) SELECT * FROM c AS r1(p, q) CROSS JOIN c AS r2"),
+        A("cte2.plain_then_list_star", 1, "WITH c AS (SELECT a, b FROM x) SELECT * FROM c AS r2 CROSS JOIN c AS r1(p, q)"),
+        A("cte2.list_then_plain_cols", 1, "WITH c AS (SELECT a, b FROM x) SELECT r1.p, r2.a, q, b FROM c AS r1(p, q) JOIN c AS r2 ON r1.q = r2.b"),
+        A("cte2.two_lists", 1, "WITH c AS (SELECT a, b FROM x) SELECT p, q, m, n FROM c AS r1(p, q) JOIN c AS r2(m, n) ON q = n"),
+        A("cte2.corr_inner_plain", 1, "WITH c AS (SELECT a, b FROM x) SELECT r1.p FROM w, c AS r1(p, q) WHERE EXISTS (SELECT 1 FROM c AS r2 WHERE a > r1.q)"),
+        A("cte2.corr_inner_list", 1, "WITH c AS (SELECT a, b FROM x) SELECT r2.a FROM c AS r2 WHERE EXISTS (SELECT 1 FROM c AS r1(p, q) WHERE p > r2.b AND q = b)"),
+        A("cte2.scalar", 1, "WITH c AS (SELECT a, b FROM x) SELECT r1.p, (SELECT MAX(a) FROM c AS r2 WHERE b = r1.q) AS m FROM c AS r1(p, q)"),
+        A("dt2.list_then_plain", 1, "SELECT * FROM (SELECT a, b FROM x) AS r1(p, q) CROSS JOIN (SELECT a, b FROM x) AS r2"),
     ]
     # NATURAL / USING chains; `w` shares column a with x but not with its left neighbour y
     nat = {
@@ -389,7 +399,7 @@ def worker(shard, nshards, plan):
                 folds_quoted = D.NORMALIZATION_STRATEGY in (NormalizationStrategy.CASE_INSENSITIVE, NormalizationStrategy.CASE_INSENSITIVE_UPPERCASE)
                 if got is not None and want is not None and not folds_quoted and [g for g in got if g.lower() != "id"] != want[1:]:
                     record(f"star_names|{tags[0]}", dialect, sql, f"star expanded to {got}, the schema's (quoted) columns are {want}")
-            elif tags and (tags[0].startswith("scope.") or tags[0].startswith("star_") and tags[0] not in ("star_join", "star_using", "star_exclude", "star_replace", "star_derived")
+            elif tags and (tags[0].startswith("cte2.") and "star" in tags[0] or tags[0] == "dt2.list_then_plain" or tags[0].startswith("scope.") or tags[0].startswith("star_") and tags[0] not in ("star_join", "star_using", "star_exclude", "star_replace", "star_derived")
                            or tags[0] == "tstar_twice"):
                 pass   # stars over nested scopes: rows and output names are compared on DuckDB below
             else:
